@@ -24,6 +24,11 @@ CHECKS = {
     technique='exhaustive depth-bounded tree of operation histories (create/register/keypair/derive/destroy by owner, permitted and denied non-owner/restart clean and kill) on the real engine with database cloning for prefix sharing',
     text='All sequences of up to 3 (quick) / 4 (thorough) actions over a 13-letter alphabet of creating and destroying operations by several clients and of clean/kill restarts, plus the complete family create+;destroy;restart?;create(;destroy;create) of longer histories, are executed on the real engine. After every step: all identifiers ever returned are pairwise distinct, no destroyed identifier has a row, Locate by each of three identities omits it, Get on it fails ITEM_NOT_FOUND for everyone; after each Destroy and each restart the full set of 13 object-addressing operations (plus use as wrapping key) is tried on the dead identifiers by every identity, and the rows of all other objects are compared before/after the Destroy.',
     note='Kill restart = fresh engine on the database file as it is between two requests; mid-operation crash points belong to C09. RSA generation served from a pool of real keys. Depth bound as stated.'),
+ 'C03': dict(
+    category='model_checking', design_ref='DESIGN.md 4/C03',
+    technique='exhaustive decision table on the real decision function against a reference model, plus explicit enumeration of (policy shape, identity, object kind, addressing operation) on clones of a real store with not-found indistinguishability, frame and owner invariants',
+    text='(a) The complete product of policy name (absent/default/public/user) x 228 user-policy shapes (preset x group g1 x group g2 cell kinds incl. missing operation/type/group/section) x requester x 8 group lists x 9 object types x 14 operations is evaluated on the engine\'s real decision entry point and compared with a reference decision written from the statement (618k decisions). (b) For every decisive policy shape and for one-hot policies granting exactly one operation or exactly one object type, a real store is built through the session seam; from it every one of 7 identities performs Locate and each of 19 object-addressing requests (direct, crypto uses, DeriveKey first/second base, wrapping key) on every object kind, each on a clone: a request the reference denies must fail exactly like the same request for an identifier that never existed, carry no payload and leave the raw database bit-identical; a granted request must not be answered as not-found; Locate must list exactly the permitted objects; no owner column may change.',
+    note='Operations without their own policy entry are judged under GET as the engine documents. An empty group list under a policy without group sections may be decided either way. Policy shapes are uniform over cells except for the one-hot policies, so call-site/operation confusions are covered by the one-hot family only.'),
 }
 
 NOT_YET = {}
